@@ -214,17 +214,26 @@ func oneCase(c *vk.Ctx, i int, r *rand.Rand, p *sem.Prepared, contextual []*open
 				// is the uncached twin wrong in the same way? then it is not the cache (C01/C03's subject)
 				twin := base.Check(req)
 				if cs.v2 {
-					// the uncached twin of a v2 server is a v2 server without cache: compare through classification only
-					twin = o
+					// the uncached twin of a weighted-graph server is a weighted-graph server without cache
+					if tv := v2Twin(base); tv != nil {
+						twin = tv.Check(req)
+					} else {
+						twin = o
+					}
 				}
 				sameAsTwin := (twin.Err != nil) == (o.Err != nil) && (o.Err != nil || twin.Allowed == o.Allowed)
 				f := sem.ClassifyCheck("C08", rc, it.rq, k, o, "fast")
 				if f == "" && cs.v2 {
 					f = sem.ClassifyV2("C08", p, rc, it.rq, k, o)
 				}
-				what := fmt.Sprintf("on %s (query cache on), %s(%s#%s@%s, ctx=%s, %d contextual) answered %s; reference %s; uncached v1 twin %s [%s]", cs.name, it.api, it.rq.Object, it.rq.Relation, it.rq.User, gen.CtxString(it.rq.Ctx), len(it.ctxl), o, k, twin, v)
-				if !sameAsTwin && !cs.v2 {
+				what := fmt.Sprintf("on %s (query cache on), %s(%s#%s@%s, ctx=%s, %d contextual) answered %s; reference %s; uncached twin of the same engine %s [%s]", cs.name, it.api, it.rq.Object, it.rq.Relation, it.rq.User, gen.CtxString(it.rq.Ctx), len(it.ctxl), o, k, twin, v)
+				if !sameAsTwin {
 					what = "CACHE-DEPENDENT ANSWER: " + what
+				} else if f == "" {
+					// the same engine gives the same answer without a cache: an engine deviation (C01 / C03's
+					// subject), not something the query cache changed
+					c.Count("engine_deviations_also_without_cache(not_judged_here)", 1)
+					continue
 				}
 				w := sem.Witness(p, cs.name, "", it.rq, it.ctxl, k.String(), o.String())
 				sem.AddWire(w, p, it.ctxl, it.rq.Ctx)
@@ -248,6 +257,20 @@ func oneCase(c *vk.Ctx, i int, r *rand.Rand, p *sem.Prepared, contextual []*open
 						sort.Strings(tg)
 						if tl.Err == nil && strings.Join(tg, ",") == strings.Join(got, ",") {
 							c.Count("listobjects_deviation_also_without_cache(engine, not judged here)", 1)
+							continue
+						}
+					}
+					if strings.Contains(cs.name, "optimized") {
+						// the weighted reverse expansion omits permitted objects nondeterministically (listed
+						// under C05): a sound answer that differs from its own uncached twin by omissions only
+						sound := true
+						for _, o := range got {
+							if !contains(want, o) {
+								sound = false
+							}
+						}
+						if sound {
+							c.Violation("C08-"+sem.FindingOptimizedOmits, "lo-omits|"+cs.name, fmt.Sprintf("on %s, ListObjects(%s, %s, %s) = %v; reference %v (omissions only)", cs.name, it.rq.Object, it.rq.Relation, it.rq.User, got, want), nil)
 							continue
 						}
 					}
@@ -309,6 +332,21 @@ var (
 	loTwinMu sync.Mutex
 	loTwins  = map[string]*drive.Srv{}
 )
+
+// v2Twin returns the uncached weighted-graph server on the same datastore.
+func v2Twin(base *drive.Srv) *drive.Srv {
+	loTwinMu.Lock()
+	defer loTwinMu.Unlock()
+	if s, ok := loTwins["v2"]; ok {
+		return s
+	}
+	s, err := drive.NewShared(drive.Cfg{V2: true}, base)
+	if err != nil {
+		return nil
+	}
+	loTwins["v2"] = s
+	return s
+}
 
 // loTwin returns the uncached server (same datastore) with the ListObjects engine of the named cached server.
 func loTwin(name string, base *drive.Srv) *drive.Srv {
